@@ -66,7 +66,7 @@ void mem_prim_set(void *dest, uint32_t len, uint8_t value) {
     uint32_t count;
     uint32_t lcount;
 
-    uint32_t *lp;
+    volatile uint32_t *lp;
     uint32_t value32;
 
     count = len;
@@ -86,7 +86,7 @@ void mem_prim_set(void *dest, uint32_t len, uint8_t value) {
      * Then do the uint32_t's, unrolled the loop for performance
      */
     GCC_DIAG_IGNORE(-Wcast-align)
-    lp = (uint32_t *)dp;
+    lp = (volatile uint32_t *)dp;
     GCC_DIAG_RESTORE
 
     lcount = count >> 2;
@@ -154,7 +154,7 @@ void mem_prim_set(void *dest, uint32_t len, uint8_t value) {
     } /* end 16*word loop */
 
     /* remaining bytes */
-    dp = (uint8_t *)lp;
+    dp = (volatile uint8_t *)lp;
     count &= (sizeof(uint32_t) - 1);
     for (; count; dp++, count--) {
         *dp = value;
@@ -170,7 +170,7 @@ void mem_prim_set(void *dest, uint32_t len, uint8_t value) {
     uint64_t count;
     uint64_t lcount;
 
-    uint64_t *lp;
+    volatile uint64_t *lp;
     uint64_t value64;
 
     count = len;
@@ -192,7 +192,7 @@ void mem_prim_set(void *dest, uint32_t len, uint8_t value) {
 
     /* Then do the uint64_t's, unrolled the loop for performance. */
     GCC_DIAG_IGNORE(-Wcast-align)
-    lp = (uint64_t *)dp;
+    lp = (volatile uint64_t *)dp;
     GCC_DIAG_RESTORE
 
     lcount = count >> 3; /* div 8 */
@@ -260,7 +260,7 @@ void mem_prim_set(void *dest, uint32_t len, uint8_t value) {
     } /* end 16*qword loop */
 
     /* remaining bytes */
-    dp = (uint8_t *)lp;
+    dp = (volatile uint8_t *)lp;
     count &= (sizeof(uint64_t) - 1);
     for (; count; dp++, count--) {
         *dp = value;
